@@ -95,7 +95,7 @@ PROPS["C08"] = {
 PROPS["C10"] = {
     "level": "model_checking", "rule": DEC_RULE, "bounds": DEC_BOUNDS, "assumptions": DEC_ASSUME,
     "claim": "on every transition of the explored state spaces (no callbacks): DWS/SAS return OK; FINISH returns OK iff complete afterwards and FAILURE iff not, never another status; complete <=> the source table is available with k entries; completion is monotone; a source symbol submitted while unknown is reported with the very pointer supplied; includes FINISH from already-complete states",
-    "runs": dec_runs("trk", "n", "rs,ldpc", ["bfs", "subsets", "large", "lens"], 1, 1) + [lowrate_run("trk", "n", 5, 6, False)],
+    "runs": dec_runs("trk", "nr", "rs,ldpc", ["bfs", "subsets", "large", "lens"], 1, 1) + [lowrate_run("trk", "n", 5, 6, False)],
 }
 PROPS["C11"] = {
     "level": "model_checking", "rule": DEC_RULE, "bounds": DEC_BOUNDS, "assumptions": DEC_ASSUME + ["callback policies are functions of the ESI fixed per exploration (buffer for all, NULL for all, NULL for every set Z with |Z|<=1 (quick) / <=2 (thorough), all 2^k sets for small k)"],
